@@ -161,6 +161,7 @@ class PeerView:
         self.expect_masked = expect_masked
         self.events = []      # ('message', 'text'|'binary', payload(str|bytes)) | ('ping', b) | ('pong', b) | ('close', b)
         self.errors = []
+        self.wrong_masking = []   # (opcode, stream offset) of frames a peer in this role must reject for their MASK bit
         self._type = None
         self._parts = []
         self.closed = False
@@ -170,7 +171,8 @@ class PeerView:
         if f.rsv:
             self.errors.append('reserved bits set in frame at %d' % f.start)
         if self.expect_masked is not None and f.masked != self.expect_masked:
-            self.errors.append('frame at %d is %s' % (f.start, 'masked' if f.masked else 'unmasked'))
+            self.wrong_masking.append((f.opcode, f.start))
+            self.errors.append('frame at %d (opcode %x) is %s' % (f.start, f.opcode, 'masked' if f.masked else 'unmasked'))
         n = len(f.payload)
         if n > 125 and f.ext == 0 or f.ext == 2 and n > 0xFFFF:
             self.errors.append('impossible length form at %d' % f.start)
